@@ -32,7 +32,8 @@ def stratum(c):
     if t == "call":
         return ("call", c.get("shape"), c.get("prov"), c.get("opts", {}).get("resolveType"))
     if t:
-        return (t, c.get("place"), c.get("opts", {}).get("resolveType"))
+        kinds = tuple(sorted({d.get("k") for d in c.get("decls", []) if isinstance(d, dict)}))
+        return (t, c.get("place"), c.get("opts", {}).get("resolveType"), kinds)
     return (c.get("prop"), c.get("kind"), c.get("lang"))
 
 
